@@ -10,7 +10,7 @@
 //	              | 3 System.Runtime.LoadScript(target, flags, [R,plan,idx+1])
 //	   for j, [acc, mode] in checks:  R.append([idx, 1, j, check(acc, mode)])      -- inside an internal CALL
 //	check(acc, 0) = System.Runtime.CheckWitness(acc)
-//	check(acc, 1) = GAS.transfer(acc, acc, 0, null)   (the native contract's own witness check of `from`)
+//	check(acc, 1) = GAS.transfer(acc, sink, 0, null)   (the native contract's own witness check of `from`)
 //
 // R is one Array shared by reference by all frames, the harness keeps the Go pointer to it.
 package c15wit
@@ -85,7 +85,7 @@ type vars struct {
 
 func ld(op opcode.Opcode) func(a *asm) { return func(a *asm) { a.op(op) } }
 
-func emitChecks(a *asm, v vars, gas util.Uint160, pfx string) {
+func emitChecks(a *asm, v vars, gas, sink util.Uint160, pfx string) {
 	stJ := func() { a.ins(opcode.STLOC, v.locJ) }
 	ldJ := func() { a.ins(opcode.LDLOC, v.locJ) }
 	a.op(opcode.PUSH0)
@@ -108,10 +108,11 @@ func emitChecks(a *asm, v vars, gas util.Uint160, pfx string) {
 	a.syscall(interopnames.SystemRuntimeCheckWitness)
 	a.jmp(opcode.JMPL, pfx+"store")
 	a.label(pfx + "native")
-	// GAS.transfer(acc, acc, 0, null)
+	// GAS.transfer(acc, sink, 0, null): sink is an account without a contract (no onNEP17Payment callback)
 	a.op(opcode.PUSHNULL, opcode.PUSH0)
+	a.bytes(sink.BytesBE())
 	a.ins(opcode.LDLOC, v.locChk)
-	a.op(opcode.PUSH0, opcode.PICKITEM, opcode.DUP, opcode.PUSH4, opcode.PACK)
+	a.op(opcode.PUSH0, opcode.PICKITEM, opcode.PUSH4, opcode.PACK)
 	a.int(int64(callflag.All))
 	a.str("transfer")
 	a.bytes(gas.BytesBE())
@@ -132,7 +133,7 @@ func emitChecks(a *asm, v vars, gas util.Uint160, pfx string) {
 }
 
 // blob builds the position-independent frame program. tag makes scripts with distinct hashes.
-func blob(tag byte, gas util.Uint160) []byte {
+func blob(tag byte, gas, sink util.Uint160) []byte {
 	a := newAsm()
 	a.int(int64(tag) + 1000) // PUSHINT16 tag; DROP
 	a.op(opcode.DROP)
@@ -140,7 +141,7 @@ func blob(tag byte, gas util.Uint160) []byte {
 	// args (top first): R, plan, idx ; locals: 0 frame, 1 j, 2 chk
 	a.initslot(3, 3)
 	a.op(opcode.LDARG1, opcode.LDARG2, opcode.PICKITEM, opcode.STLOC0)
-	emitChecks(a, vars{r: ld(opcode.LDARG0), idx: ld(opcode.LDARG2), frame: ld(opcode.LDLOC0), phase: ld(opcode.PUSH0), locJ: 1, locChk: 2}, gas, "i_")
+	emitChecks(a, vars{r: ld(opcode.LDARG0), idx: ld(opcode.LDARG2), frame: ld(opcode.LDLOC0), phase: ld(opcode.PUSH0), locJ: 1, locChk: 2}, gas, sink, "i_")
 	// link
 	a.op(opcode.LDLOC0, opcode.PUSH1, opcode.PICKITEM)
 	a.op(opcode.DUP, opcode.PUSH1, opcode.NUMEQUAL)
@@ -190,14 +191,14 @@ func blob(tag byte, gas util.Uint160) []byte {
 	a.op(opcode.RET)
 	a.label("sub")
 	a.initslot(2, 3)
-	emitChecks(a, vars{r: ld(opcode.LDARG0), idx: ld(opcode.LDARG1), frame: ld(opcode.LDARG2), phase: ld(opcode.PUSH1), locJ: 0, locChk: 1}, gas, "s_")
+	emitChecks(a, vars{r: ld(opcode.LDARG0), idx: ld(opcode.LDARG1), frame: ld(opcode.LDARG2), phase: ld(opcode.PUSH1), locJ: 0, locChk: 1}, gas, sink, "s_")
 	a.op(opcode.RET)
 	return a.done()
 }
 
 // contractScript = blob + onNEP17Payment stub. Returns the script and the stub's offset.
-func contractScript(tag byte, gas util.Uint160) ([]byte, int) {
-	b := blob(tag, gas)
+func contractScript(tag byte, gas, sink util.Uint160) ([]byte, int) {
+	b := blob(tag, gas, sink)
 	off := len(b)
 	a := newAsm()
 	// stack (top first): from, amount, data
